@@ -335,7 +335,9 @@ class ScriptedIterator:
 def _iterator_attr(I, it, name):
     def send(v=None):
         if it.finished:
-            I.raise_("StopIteration")
+            e = PExc(StopIteration, ())
+            e.fields["value"] = None
+            raise SymRaise(e)
         kind, val = it.step(it.n)
         it.n += 1
         if kind == "yield":
